@@ -342,7 +342,7 @@ theorem handleAll_purge_log (w : World) (h ds : Nat) (rest : List Msg) (fuel : N
     ∃ pre post, (handleAll h (fuel + 1) sched w).1.log = post ++ Event.purged h ds 0 :: (pre ++ w.log) ∧
       (∀ f ∈ (w.hosts h).futs, f.result = none → ended h f.key pre) ∧
       ∀ h' d k, Event.purged h' d k ∉ pre := by
-  simp only [handleAll, hc, Bool.false_eq_true, if_false, hi]
+  simp only [handleAll, hc, Bool.false_eq_true, if_false, hi, purgeWait_eq]
   obtain ⟨e1, hl1, hall⟩ := waitAll_ended h (w.hosts h).futs.length sched w hc (nPending_le_length _)
   have hw := waitAll_done h (w.hosts h).futs.length sched w hc (nPending_le_length _)
   have hnil := mclean_nil h (waitAll h (w.hosts h).futs.length sched w).2 _ hw.2 hw.1
